@@ -81,6 +81,9 @@ func planFor(prop, tier string) plan {
 		p.f1Full, p.f1Stride = len(p.cfgs), 1
 		if quick {
 			p.f1Lim = [][2]uint64{{5, 9}}
+			if prop == "C01" {
+				p.f1Lim = append(p.f1Lim, [2]uint64{1 << 32, 1<<32 + 3})
+			}
 			p.f1Full, p.f1Stride = 2, 8
 			// put three diverse configurations first
 			p.cfgs = append([]tablegen.Cfg{{}, {Unaligned: true, BlockSize: 128, Restart: 2}, {SHA256: true, ExactMsg: true, BlockSize: 256}}, p.cfgs...)
